@@ -49,6 +49,7 @@ type State struct {
 	panick  string // Bool term: currently panicking
 	panicV  string // Iface term
 	rsnap   map[string]*State // snapshots taken at RLock (frame of read sections)
+	csSnap  *State            // state when the last critical section began (after Lock's havoc)
 	callDepth int
 	deferDepth int
 	havocEpoch int
@@ -56,7 +57,7 @@ type State struct {
 
 func (s *State) clone() *State {
 	n := &State{pc: s.pc, vars: make(map[types.Object]Val, len(s.vars)), heap: make(map[string]string, len(s.heap)),
-		panick: s.panick, panicV: s.panicV, callDepth: s.callDepth, deferDepth: s.deferDepth, rsnap: s.rsnap, havocEpoch: s.havocEpoch}
+		panick: s.panick, panicV: s.panicV, callDepth: s.callDepth, deferDepth: s.deferDepth, rsnap: s.rsnap, csSnap: s.csSnap, havocEpoch: s.havocEpoch}
 	for k, v := range s.vars {
 		n.vars[k] = v
 	}
@@ -99,6 +100,7 @@ type FnCtx struct {
 	counters map[string]int
 	inSpec   int
 	noDefine int
+	axiomKey map[int]string
 	noAssumeGoal bool
 	fnSig    *types.Signature
 	inlineDepth int
@@ -132,12 +134,29 @@ func (fc *FnCtx) idxLit(n int64) string {
 
 func (fc *FnCtx) addPre(s string) { fc.pre = append(fc.pre, s) }
 
+// addAxiom: a universally valid fact about symbol `key`; emitted only into queries that mention key.
+func (fc *FnCtx) addAxiom(key, s string) {
+	if fc.axiomKey == nil {
+		fc.axiomKey = map[int]string{}
+	}
+	fc.axiomKey[len(fc.pre)] = key
+	fc.pre = append(fc.pre, s)
+}
+
 func (fc *FnCtx) declareOnce(name, decl string) {
 	if fc.declared[name] {
 		return
 	}
 	fc.declared[name] = true
 	fc.addPre(decl)
+}
+
+func (fc *FnCtx) declareAxiomOnce(name, key, ax string) {
+	if fc.declared[name] {
+		return
+	}
+	fc.declared[name] = true
+	fc.addAxiom(key, ax)
 }
 
 func (fc *FnCtx) fresh(prefix, sort string) string {
@@ -223,7 +242,32 @@ func (o *Obligation) QueryText() string {
 	sb.WriteString("; obligation " + o.Name + "\n; " + strings.ReplaceAll(o.Desc, "\n", " ") + "\n; at " + o.Pos + "\n")
 	sb.WriteString("(set-option :produce-models true)\n")
 	sb.WriteString("(set-logic ALL)\n")
-	for _, p := range fc.pre {
+	var body strings.Builder
+	for _, c := range fc.cmds[:o.ncmds] {
+		body.WriteString(c)
+		body.WriteString("\n")
+	}
+	body.WriteString(o.PC + "\n" + o.Goal + "\n")
+	bodyText := body.String()
+	// axioms are included when their key symbol occurs (directly, or through an included axiom)
+	include := map[int]bool{}
+	for changed := true; changed; {
+		changed = false
+		for i, key := range fc.axiomKey {
+			if include[i] {
+				continue
+			}
+			if strings.Contains(bodyText, key) {
+				include[i] = true
+				bodyText += fc.pre[i]
+				changed = true
+			}
+		}
+	}
+	for i, p := range fc.pre {
+		if _, isAx := fc.axiomKey[i]; isAx && !include[i] {
+			continue
+		}
 		sb.WriteString(p)
 		sb.WriteString("\n")
 	}
@@ -310,9 +354,9 @@ func (fc *FnCtx) strSort() string {
 		fc.addPre(fmt.Sprintf("(declare-fun str.len (Str) %s)", fc.I()))
 		fc.addPre(fmt.Sprintf("(declare-fun str.at (Str %s) (_ BitVec 8))", fc.I()))
 		if fc.bv {
-			fc.addPre("(assert (forall ((s Str)) (! (bvsge (str.len s) (_ bv0 64)) :pattern ((str.len s)))))")
+			fc.addAxiom("str.len", "(assert (forall ((s Str)) (! (bvsge (str.len s) (_ bv0 64)) :pattern ((str.len s)))))")
 		} else {
-			fc.addPre("(assert (forall ((s Str)) (! (>= (str.len s) 0) :pattern ((str.len s)))))")
+			fc.addAxiom("str.len", "(assert (forall ((s Str)) (! (>= (str.len s) 0) :pattern ((str.len s)))))")
 		}
 	}
 	return "Str"
@@ -432,7 +476,7 @@ func (fc *FnCtx) merge(a, b *State) *State {
 	if b.pc == "false" {
 		return a
 	}
-	n := &State{vars: map[types.Object]Val{}, heap: map[string]string{}, rsnap: a.rsnap, callDepth: a.callDepth, deferDepth: a.deferDepth}
+	n := &State{vars: map[types.Object]Val{}, heap: map[string]string{}, rsnap: a.rsnap, csSnap: a.csSnap, callDepth: a.callDepth, deferDepth: a.deferDepth}
 	n.pc = fc.define("pc", "Bool", or(a.pc, b.pc))
 	for k, va := range a.vars {
 		vb, ok := b.vars[k]
